@@ -350,17 +350,22 @@ def check_output(ver, req_tokens, d):
                     return None
                 return "CIF 1.1: CIF_DISALLOWED_CHAR without a character outside the CIF 1.1 set"
             if rc == CIF_DISALLOWED_VALUE:
-                if nested or any(any(s[j] in (10, 13) and s[j + 1] == 59 for j in range(len(s) - 1)) for _, _, s in strings):
+                if nested or any(any(s[j] in (10, 13) and s[j + 1] == 59 for j in range(len(s) - 1)) for _, _, s in strings) \
+                        or any(13 in s for _, _, s in strings):
                     return None
-                return "CIF 1.1: CIF_DISALLOWED_VALUE without a list, a table or a string containing a line terminator followed by ;"
+                return "CIF 1.1: CIF_DISALLOWED_VALUE without a list, a table, a string containing a line terminator followed by ; or a CR"
             return "CIF 1.1: cif_write failed with code %d (only CIF_DISALLOWED_VALUE / CIF_DISALLOWED_CHAR are documented)" % rc
         if rc == CIF_DISALLOWED_VALUE and any(not key_quotable(k) for k in keys):
             return None
-        if rc in (CIF_DISALLOWED_VALUE, CIF_DISALLOWED_CHAR) and (any(13 in s for _, _, s in strings) or any(13 in k for k in keys)):
-            return None                               # a string holding a CR: outside the totality clause ("no CR")
+        if rc == CIF_DISALLOWED_VALUE and (any(13 in s for _, _, s in strings) or any(13 in k for k in keys)):
+            return None                               # a string holding a CR is refused: outside the totality clause ("no CR")
         if rc == CIF_DISALLOWED_CHAR and (any(cif2_disallowed(s) for _, _, s in strings) or any(cif2_disallowed(k) for k in keys)):
-            return None                               # not "strings of CIF 2.0 characters": outside the totality clause
+            return None                               # not "strings of CIF 2.0 characters": refused, outside the totality clause
         return "cif_write failed with code %d on a writable CIF" % rc
+    if any(13 in s for _, _, s in strings) or any(13 in k for k in keys):
+        return "cif_write succeeded on a CIF holding a carriage return in a string or key (no reader gives it back)"
+    if ver != 1 and (any(cif2_disallowed(s) for _, _, s in strings) or any(cif2_disallowed(k) for k in keys)):
+        return "cif_write (CIF 2.0) succeeded on a CIF holding a character CIF 2.0 does not allow"
     data = out_bytes(d.get("out"))
     magic = b"#\\#CIF_1.1\n" if ver == 1 else b"#\\#CIF_2.0\n"
     if not data.startswith(magic):
@@ -394,13 +399,6 @@ def known_class(ver, req_tokens, d):
     40af3df are gone: a recurrence is a violation.)"""
     if d is None or d.get("b") != 0:
         return None
-    if d.get("rc") == CIF_DISALLOWED_VALUE and ver != 1:
-        # open finding F-key-first-line: every key is writable, and one of them has several lines, the first of exactly
-        # LINE - 3 units (cif_analyze_string asks `first_line < length_limit - 3`)
-        _, _, keys, _ = request_strings(req_tokens)
-        if keys and all(key_quotable(k) for k in keys) and any(first_line_fills(k) for k in keys):
-            return "multiline-key-first-line-fills-line-refused"
-        return None
     if d.get("rc") != 0:
         return None
     why0 = check_output(ver, req_tokens, d)
@@ -412,21 +410,6 @@ def known_class(ver, req_tokens, d):
         d2["back"] = d2["orig"]
         if check_output(ver, req_tokens, d2) is None:
             return "unquoted-overlong-line-comes-back-quoted"
-    # open finding F-cr-altered: a string (or key) holding a CR is written with the CR as it is; every reader takes the CR for
-    # (part of) a line terminator, so the content comes back altered (CR -> LF, CR LF -> LF, a final CR of a text field lost, a
-    # backslash before the CR read as a fold), and lines counted at LF only may look over-long.  Any oracle failure of a
-    # successful write of such a CIF is this finding (strings with CR are outside the property's totality clause).
-    _, strings, keys, _ = request_strings(req_tokens)
-    if any(13 in s for _, _, s in strings) or any(13 in k for k in keys):
-        return "cr-in-string-comes-back-lf"
-    # open finding F-disallowed-char-written (CIF 2.0 mode only): a string holding a character CIF 2.0 does not allow is written
-    # as it is; the re-parse reports CIF_DISALLOWED_CHAR (and nothing else is wrong)
-    if ver != 1 and any(cif2_disallowed(s) for _, _, s in strings) and d.get("prc") == 0 \
-            and set((d.get("errs") or "").split(",")) == {str(CIF_DISALLOWED_CHAR)}:
-        d2 = dict(d)
-        d2["errs"] = "-"
-        if check_output(ver, req_tokens, d2) is None:
-            return "cif2-disallowed-character-written"
     return None
 
 
